@@ -695,6 +695,33 @@ func replay(c *core.Ctx, path string) error {
 		}
 		return nil
 	}
+	if kind.Kind == "stored" {
+		var st struct {
+			NB   int    `json:"nb"`
+			Seed int64  `json:"seed"`
+			Eng  string `json:"eng"`
+		}
+		if err := json.Unmarshal(f.Replay, &st); err != nil {
+			return err
+		}
+		g := grid{st.NB, st.Seed}
+		ds := modelDocs(g)
+		idx, err := openIndex(st.Eng, g, ds)
+		if err != nil {
+			return err
+		}
+		defer idx.Close()
+		c.Eval(len(ds.ids))
+		c.Sample(map[string]any{"stored points of": st.Eng, "documents": len(ds.ids)})
+		if err := checkStored(idx, st.Eng, g, ds); err != nil {
+			if sm, ok := err.(*storedMismatch); ok {
+				c.Violation("c18/roundtrip/stored-point", sm.what, st)
+				return nil
+			}
+			return err
+		}
+		return nil
+	}
 	var q qcase
 	if err := json.Unmarshal(f.Replay, &q); err != nil {
 		return err
